@@ -100,6 +100,8 @@ func (s *scte35) UpdateData() []byte {
 	s.tableHeader.SectionLength = uint16(sectionLength)
 
 	tableHeaderBytes := s.tableHeader.Data()
+	// section_length of a splice_info_section is a 12 bit field, psi.TableHeader only writes 10 bits
+	tableHeaderBytes[1] |= byte(sectionLength>>8) & 0x0F // 0000 1111
 	tableHeaderLength := len(tableHeaderBytes)
 
 	// slices that point to the starting position of their names
